@@ -140,6 +140,19 @@ func init() {
 					cases = append(cases, c09Case("two-statements", []string{stm[i], stm[j]}, nil))
 				}
 			}
+			// the same pairs on a store that has never heard of @a (its balance is zero by
+			// omission, the cache starts without an entry for it): quick tier for first
+			// statements that can move @a without funds (credit, bounded and unbounded
+			// overdraft, saves), thorough tier for every pair of send/save kinds
+			for i := 0; i < 14; i++ {
+				movesWithoutFunds := i == 4 || i == 5 || i == 6 || i == 7 || i == 13
+				if tier != "thorough" && !movesWithoutFunds {
+					continue
+				}
+				for j := 0; j < 14; j++ {
+					cases = append(cases, c09Case("two-statements/account-unknown-to-the-store", []string{stm[i], stm[j]}, map[string][2]string{"_omit": {"", "a"}}))
+				}
+			}
 			if tier == "thorough" {
 				for i := 0; i < 8; i++ {
 					for j := 0; j < 8; j++ {
